@@ -64,6 +64,8 @@ pub enum Op {
     UpdateConfig,
     /// handles[dst].clone_from(&handles[src])
     CloneFromInjector { dst: u8, src: u8 },
+    /// n restarts in a row without a tick in between (counters that wrap)
+    RestartBurst { n: u16, clear: bool },
 }
 
 #[derive(Clone, Debug, Serialize, Deserialize, Hash)]
@@ -784,6 +786,23 @@ impl<'h> Machine<'h> {
                     }
                     self.check_injectors(&when);
                 }
+                Op::RestartBurst { n, clear } => {
+                    let before = self.observe();
+                    for _ in 0..*n {
+                        self.nuc.as_mut().unwrap().restart(*clear);
+                        self.stream += 1;
+                    }
+                    gate::log_event(hsite::RESTART, *clear as u64);
+                    self.had_restart = true;
+                    self.had_cancel = true;
+                    self.rep.label("restart-burst");
+                    if *clear {
+                        self.pending_restart_obs = None;
+                    } else if self.pending_restart_obs.is_none() {
+                        self.pending_restart_obs = before;
+                    }
+                    self.check_injectors(&when);
+                }
                 Op::CloneFromInjector { dst, src } => {
                     if let (Some(d), Some(sr)) = (self.pick_handle(*dst, false), self.pick_handle(*src, false)) {
                         if d != sr {
@@ -1087,6 +1106,7 @@ pub fn op_strategy(bias: Bias) -> BoxedStrategy<Op> {
         w_inj / 3 + 1 => (any::<u8>(), any::<bool>()).prop_map(|(sel, on_thread)| Op::DropInjector { sel, on_thread }),
         w_inj / 6 + 1 => (any::<u8>(), any::<u8>()).prop_map(|(dst, src)| Op::CloneFromInjector { dst, src }),
         3 => Just(Op::UpdateConfig),
+        1 => (proptest::sample::select(vec![2u16, 255, 256, 257, 512]), any::<bool>()).prop_map(|(n, clear)| Op::RestartBurst { n, clear }),
         8 => (0u8..8).prop_map(|phase| Op::HoldRunAt { phase }),
         4 => (0u8..8).prop_map(|phase| Op::AdvanceRunTo { phase }),
         5 => Just(Op::ReleaseRun),
@@ -1170,6 +1190,28 @@ pub fn templates() -> Vec<History> {
             ops.extend([Op::Bulk { inj: 0, n: 6, text: 7 }, Op::Tick { timeout: 2 }, Op::Tick { timeout: 2 }, Op::Restart { clear }, Op::NewInjector, Op::Bulk { inj: 0, n: 6, text: 7 }, Op::Tick { timeout: 2 }, Op::Tick { timeout: 2 }]);
             v.push(base(1, ops));
         }
+    }
+    // restart followed by an appending edit before the next tick; restart after a pattern that matched nothing;
+    // restart without any new item; restart(true) ticked before the first push
+    for clear in [false, true] {
+        v.push(base(1, vec![push_n(20, 3), Op::Reparse { col: 0, edit: Edit::Replace(0) }, Op::Tick { timeout: 2 }, Op::Tick { timeout: 2 }, Op::Restart { clear }, Op::Reparse { col: 0, edit: Edit::Append(1) }, Op::NewInjector, Op::Bulk { inj: 0, n: 8, text: 5 }, Op::Tick { timeout: 2 }, Op::Tick { timeout: 2 }]));
+        for (text, pat) in [(3u16, 15u16), (7, 9), (1, 10), (9, 8), (4, 2), (11, 15)] {
+            v.push(base(1, vec![Op::Reparse { col: 0, edit: Edit::Replace(pat) }, Op::Bulk { inj: 0, n: 6, text }, Op::Tick { timeout: 2 }, Op::Tick { timeout: 2 }, Op::Restart { clear }, Op::NewInjector, Op::Bulk { inj: 0, n: 3, text: text + 1 }, Op::Bulk { inj: 0, n: 3, text: text + 2 }, Op::Bulk { inj: 0, n: 3, text: 12 }, Op::Tick { timeout: 2 }, Op::Tick { timeout: 2 }]));
+        }
+        v.push(base(1, vec![Op::Reparse { col: 0, edit: Edit::Replace(0) }, push_n(10, 3), Op::Tick { timeout: 2 }, Op::Tick { timeout: 2 }, Op::Restart { clear }, Op::Tick { timeout: 2 }, Op::Tick { timeout: 2 }]));
+        v.push(base(1, vec![push_n(3, 1), Op::Tick { timeout: 2 }, Op::Restart { clear }, Op::Tick { timeout: 2 }, Op::NewInjector, Op::Tick { timeout: 2 }, Op::Push { inj: 0, text: 2 }, Op::Tick { timeout: 2 }]));
+    }
+    // an edit to a non-empty pattern whose run is still uncollected, then back to the empty pattern
+    for phase in [2u8, 3, 5] {
+        v.push(base(1, vec![push_n(50, 3), Op::Tick { timeout: 2 }, Op::Tick { timeout: 2 }, Op::HoldRunAt { phase }, Op::Reparse { col: 0, edit: Edit::Replace(0) }, Op::Tick { timeout: 0 }, Op::Reparse { col: 0, edit: Edit::Clear }, Op::Tick { timeout: 0 }, Op::ReleaseRun, Op::Tick { timeout: 2 }, Op::Tick { timeout: 2 }]));
+    }
+    // typing behind a word that consists of a marker only ("^ a b" -> "^ a ba")
+    for marker in [7u8, 6, 9, 8] {
+        v.push(base(1, vec![Op::Bulk { inj: 0, n: 64, text: 11 }, Op::Reparse { col: 0, edit: Edit::Clear }, Op::Reparse { col: 0, edit: Edit::Append(marker) }, Op::Reparse { col: 0, edit: Edit::Append(5) }, Op::Reparse { col: 0, edit: Edit::Append(0) }, Op::Reparse { col: 0, edit: Edit::Append(5) }, Op::Reparse { col: 0, edit: Edit::Append(1) }, Op::Tick { timeout: 2 }, Op::Tick { timeout: 2 }, Op::Reparse { col: 0, edit: Edit::Append(0) }, Op::Tick { timeout: 2 }, Op::Tick { timeout: 2 }]));
+    }
+    // 255 / 256 / 257 restarts between two ticks
+    for n in [255u16, 256, 257] {
+        v.push(base(1, vec![push_n(5, 1), Op::NewInjector, Op::Tick { timeout: 2 }, Op::RestartBurst { n, clear: false }, Op::NewInjector, Op::NewInjector, Op::Push { inj: 0, text: 4 }, Op::Tick { timeout: 2 }, Op::Tick { timeout: 2 }]));
     }
     // update_config while a run is held in each phase, then the matcher is ticked to quiescence
     for phase in [2u8, 3, 5] {
